@@ -15,7 +15,10 @@
 (* trace validation of recorded real executions (Trace_Posmint).            *)
 (*                                                                          *)
 (* Accounts are integers: 1..N users (id order = address byte order),      *)
-(* N+1 fee collector, N+2 staked pool, N+3 pos module, N+4 DAO.            *)
+(* N+1 fee collector, N+2 staked pool, N+3 pos module, N+4 DAO, N+5 OUT:   *)
+(* every other address of the usual length together, N+6 ODD: every       *)
+(* address of another length (a message carries any byte string; only the  *)
+(* JSON form of an address checks its length).                             *)
 (***************************************************************************)
 EXTENDS Integers, Sequences, FiniteSets, FiniteSetsExt, TLC
 
@@ -59,14 +62,18 @@ CONSTANTS
   MaxRO,        \* read-only calls (CheckTx / Simulate / Query) offered per block phase
   ParamOwner,   \* the account the ACL names as owner of the pos parameters
   ParamVals,    \* values offered for pos/MaxValidators by "setparam" transactions
-  MaxExports    \* how many export/import restarts the environment may take
+  MaxExports,   \* how many export/import restarts the environment may take
+  SecpUsers,    \* users whose key is of a type the chain's consensus parameters do not admit for validators
+  MaxCrashes    \* how many times the node may crash (lose everything not committed) and be reopened
 
 FEE  == N + 1
 POOL == N + 2
 POSM == N + 3
 DAO  == N + 4
 Users == 1..N
-Accts == 1..(N + 4)
+OUT  == N + 5
+ODD  == N + 6
+Accts == 1..(N + 6)
 INF == 99999
 
 Unstaked == 0
@@ -109,11 +116,16 @@ PreGenesis ==
     \* pos/StakeDenom changed by governance to a denomination nobody holds (only offered by
     \* environments without validators, awards or evidence: everything but staking is then unaffected)
     denomAlt |-> FALSE,
+    \* what sits at the pos module account's address: nothing yet, the module account (created by the
+    \* first fee distribution), or a plain account that a transfer to that address created before
+    posmAcc |-> "none",
     \* Tendermint: vs[1] signs the next BeginBlock's LastCommitInfo, vs[2] is the set of the
     \* block begun next, vs[3] the one after (where EndBlock's updates land)
     vs |-> << [v \in Users |-> 0], [v \in Users |-> 0], [v \in Users |-> 0] >>,
     \* bookkeeping of the environment / ghosts
-    ntx |-> 0, next |-> 0, nro |-> 0, nexp |-> 0, blocks |-> 0,
+    ntx |-> 0, next |-> 0, nro |-> 0, nexp |-> 0, blocks |-> 0, ncrash |-> 0,
+    \* the state as of the last Commit (<< >> before the first one): what a crashed node reopens with
+    snap |-> << >>,
     \* digests of the real stores (auth store; all other stores); only the trace monitor sets them
     dAuth |-> "", dRest |-> "",
     minted |-> 0, burned |-> 0, donated |-> 0, fees |-> 0,
@@ -128,7 +140,8 @@ HasCoins(s, a, amt) == s.bal[a] >= amt
 
 \* SendCoins: SubtractCoins then AddCoins; fails without effect when funds are short
 Send(s, from, to, amt) ==
-  [s EXCEPT !.bal = [@ EXCEPT ![from] = @ - amt, ![to] = @ + amt]]
+  [s EXCEPT !.bal = [@ EXCEPT ![from] = @ - amt, ![to] = @ + amt],
+            !.posmAcc = IF to = POSM /\ @ = "none" THEN "plain" ELSE @]
 
 MintTo(s, a, amt) ==   \* MintCoins(module a)
   [s EXCEPT !.bal = [@ EXCEPT ![a] = @ + amt], !.supply = @ + amt, !.minted = @ + amt]
@@ -214,7 +227,8 @@ Err(s) == [s |-> s, ok |-> FALSE]
 
 HandleStake(s, v, amt) ==
   LET rec == IF s.val[v].ex THEN s.val[v] ELSE [NoVal EXCEPT !.ex = TRUE]
-  IN IF rec.status # Unstaked THEN Err(s)                   \* ErrValidatorStatus
+  IN IF ~s.val[v].ex /\ v \in SecpUsers THEN Err(s)           \* stakeNewValidator: ErrValidatorPubKeyTypeNotSupported
+     ELSE IF rec.status # Unstaked THEN Err(s)              \* ErrValidatorStatus
      ELSE IF s.sinfo[v].ex /\ s.sinfo[v].tomb /\ "TombstoneRejoin" \notin Dev THEN Err(s)   \* ErrValidatorTombstoned
      ELSE IF amt < s.par.minStake THEN Err(s)                      \* ErrMinimumStake
      ELSE IF ~HasCoins(s, v, amt) \/ s.denomAlt THEN Err(s)  \* ErrNotEnoughCoins (nobody holds the new denomination)
@@ -247,12 +261,15 @@ HandleUnjail(s, v) ==
 
 HandleSend(s, from, to, amt) ==
   IF ~HasCoins(s, from, amt) \/ s.denomAlt THEN Err(s)   \* pos sends move the stake denomination
-  ELSE Ok([Send(s, from, to, amt) EXCEPT !.donated = IF to = POOL THEN @ + amt ELSE @])
+  \* coins sent to the pool address stay there; coins sent to the fee collector join the next proposer's reward
+  ELSE Ok([Send(s, from, to, amt) EXCEPT !.donated = IF to = POOL THEN @ + amt ELSE @,
+                                         !.fees = IF to = FEE THEN @ + amt ELSE @])
 
 \* x/gov ModifyParam for pos/MaxValidators (to = 1) and pos/StakeMinimum (to = 2), value in amt;
 \* only the ACL owner (ParamOwner) may change a parameter
+\* to = 4: a key in a subspace nobody registered ("nosuch/Foo"): no ACL lists it, refused for every sender
 HandleSetParam(s, a) ==
-  IF a.from # ParamOwner THEN Err(s)
+  IF a.to = 4 \/ a.from # ParamOwner THEN Err(s)
   ELSE IF a.to = 3 THEN Ok([s EXCEPT !.denomAlt = TRUE])
   ELSE IF a.to = 1 THEN Ok([s EXCEPT !.par = [@ EXCEPT !.maxVals = a.amt]])
   ELSE Ok([s EXCEPT !.par = [@ EXCEPT !.minStake = a.amt], !.minChanged = @ \/ a.amt # s.par.minStake])
@@ -282,12 +299,17 @@ DeliverTx(s, a) ==
 (* BeginBlocker *)
 
 \* reward.go rewardFromFees
+\* The pos module account is created by the first call (GetModuleAccount).  Observation on the code
+\* as it is: if a transfer created a PLAIN account at that address first (possible during block 1),
+\* GetModuleAccount hands back an empty ModuleAccount and the distribution dereferences nil: the
+\* node halts at BeginBlock(2).
 RewardFromFees(s) ==
   LET f == s.bal[FEE]
-      s1 == Send(s, FEE, POSM, f)
+      s1 == [Send(s, FEE, POSM, f) EXCEPT !.posmAcc = "module"]
       p == s.proposer
-  \* the proposer's share is the collected amount OF THE STAKE DENOMINATION (nothing once it was changed)
-  IN IF p \in Users /\ s.val[p].ex /\ ~s.denomAlt THEN Send(s1, POSM, p, f) ELSE s1
+  IN IF s.posmAcc = "plain" THEN [s EXCEPT !.halt = "pos-module-address-holds-plain-account"]
+     \* the proposer's share is the collected amount OF THE STAKE DENOMINATION (nothing once it was changed)
+     ELSE IF p \in Users /\ s.val[p].ex /\ ~s.denomAlt THEN Send(s1, POSM, p, f) ELSE s1
 
 \* reward.go mintValidatorAwards (mint to the staked pool, forward to the address)
 MintAwards(s) ==
@@ -372,8 +394,8 @@ BeginBlock(s, a) ==
   LET s0 == [s EXCEPT !.height = @ + 1, !.blocks = @ + 1, !.time = @ + a.dt, !.phase = "begun", !.ntx = 0, !.next = 0, !.nro = 0,
                       !.lastRes = "n/a", !.jailedNow = {}, !.slashLog = << >>]
       s1 == IF s0.height > 1 THEN [RewardFromFees(s0) EXCEPT !.fees = 0] ELSE s0
-      s2 == MintAwards(s1)
-      s3 == BurnValidators(s2)
+      s2 == IF s1.halt # "" THEN s1 ELSE MintAwards(s1)
+      s3 == IF s2.halt # "" THEN s2 ELSE BurnValidators(s2)
   IN IF s3.halt # "" THEN s3
      ELSE FoldEvidence(FoldVotes([s3 EXCEPT !.proposer = a.prop], a.votes), a.evs)
 
@@ -475,7 +497,21 @@ InitChain(s) ==
               set == ApplyUpd(s.vs[3], s2.lastUpd)
           IN IF s2.halt # "" THEN s2 ELSE [s2 EXCEPT !.vs = << s.vs[1], set, set >>]
 
-Commit(s) == [s EXCEPT !.phase = "committed", !.nro = 0]
+\* Commit makes the working state durable: from here on a crash loses nothing of it
+Strip(s) == [s EXCEPT !.snap = << >>]
+Commit(s) ==
+  LET c == [s EXCEPT !.phase = "committed", !.nro = 0]
+  IN IF MaxCrashes > 0 THEN [c EXCEPT !.snap = << Strip(c) >>] ELSE c
+
+\* The node dies (anywhere after the first Commit: between blocks, inside a block, after EndBlock)
+\* and is reopened on the same database.  Everything written since the last Commit is lost -
+\* queued awards and burns, delivered transactions, slashes, what a Simulate call left in the
+\* uncommitted state - and exactly the committed state is back; Tendermint then starts the
+\* block after the committed one again (possibly a different block: the crashed one was not
+\* decided as far as this node knows).  Counters of the environment keep counting.
+Crash(s) ==
+  LET c == s.snap[1]
+  IN [c EXCEPT !.snap = s.snap, !.blocks = s.blocks, !.nexp = s.nexp, !.ncrash = s.ncrash + 1, !.nro = 0, !.lastRes = "n/a"]
 
 \* The chain is stopped after a Commit, its state exported (pos.ExportGenesis, gov ExportGenesis, all
 \* accounts with the current supply) and a NEW chain is started from the export: fresh database,
@@ -501,8 +537,14 @@ ExportImport(s) ==
                       !.awardQ = [a \in Accts |-> 0], !.burnQ = [v \in Users |-> -1],
                       !.lastUpd = upd, !.updOk = TRUE,
                       !.vs = << [v \in Users |-> 0], set, set >>,
-                      !.jailedNow = {}, !.slashLog = << >>]
-  IN IF s.bal[POOL] # 0 /\ s.bal[POOL] # backedSum THEN [s1 EXCEPT !.halt = "genesis-pool-differs-from-stake"]
+                      !.jailedNow = {}, !.slashLog = << >>, !.snap = << >>]
+  \* observation on the code as it is: ExportGenesis writes out every validator record, InitGenesis refuses
+  \* an unstaked one - a chain on which a forced unstake left an Unstaked record cannot be restarted from its export
+  IN IF \E v \in gv : s.val[v].status = Unstaked THEN [s1 EXCEPT !.halt = "genesis-unstaked-validator"]
+     \* observation: an account whose address has an unusual length (created by a transfer or an award to it)
+     \* is exported, and the genesis file's JSON form of an address refuses that length
+     ELSE IF s.bal[ODD] > 0 THEN [s1 EXCEPT !.halt = "genesis-address-length"]
+     ELSE IF s.bal[POOL] # 0 /\ s.bal[POOL] # backedSum THEN [s1 EXCEPT !.halt = "genesis-pool-differs-from-stake"]
      ELSE IF \E v \in pv : v \notin gv THEN [s1 EXCEPT !.halt = "genesis-prev-power-unknown-validator"]
      ELSE [s1 EXCEPT !.bal = [@ EXCEPT ![POOL] = backedSum]]
 
@@ -541,6 +583,7 @@ Step(s, a) ==
     [] a.a = "EndBlock"   -> EndBlock(s)
     [] a.a = "Commit"     -> Commit(s)
     [] a.a = "ExportImport" -> ExportImport(s)
+    [] a.a = "Crash"      -> Crash(s)
 
 -----------------------------------------------------------------------------
 (* the environment: which actions Tendermint / users / other modules may take *)
@@ -571,6 +614,7 @@ TxChoices(s) ==
         \cup (IF "send" \in Kinds THEN {T("send", v, w, x, Fee, "none") : v \in Users, w \in SendTos, x \in Amts} ELSE {})
         \cup (IF "setparam" \in Kinds THEN {T("setparam", v, 1, x, Fee, "none") : v \in Users, x \in ParamVals}
                                             \cup {T("setparam", v, 2, x, Fee, "none") : v \in {ParamOwner}, x \in {MinStake, MinStake + 1}} ELSE {})
+        \cup (IF "setparam" \in Kinds THEN {T("setparam", v, 4, 0, Fee, "none") : v \in Users} ELSE {})
         \cup (IF "setdenom" \in Kinds THEN {T("setparam", v, 3, 0, Fee, "none") : v \in {ParamOwner}} ELSE {})
       badtx ==
         IF ~BadTxOn THEN {}
@@ -586,26 +630,31 @@ ROChoices(s) ==
        \cup {[t EXCEPT !.a = "Simulate"] : t \in TxChoices(s)}
        \cup {[a |-> "Query", kind |-> q] : q \in QueryKinds}
 
+CrashChoices(s) == IF s.ncrash < MaxCrashes /\ Len(s.snap) = 1 /\ s.blocks < MaxHeight THEN {[a |-> "Crash"]} ELSE {}
+
+PhaseActs(s) ==
+  CASE s.phase = "init" -> {[a |-> "InitChain"]}
+    [] s.phase = "committed" ->
+         (IF MaxExports > s.nexp /\ s.height >= 1 /\ s.blocks < MaxHeight
+             /\ (\A x \in Accts : s.awardQ[x] = 0) /\ (\A v \in Users : s.burnQ[v] = -1)
+          THEN {[a |-> "ExportImport"]} ELSE {})
+         \cup (IF s.blocks >= MaxHeight THEN {}
+          ELSE {[a |-> "BeginBlock", dt |-> d, prop |-> p, votes |-> vt, evs |-> ev] :
+            d \in Dts, p \in Props, vt \in VoteChoices(s), ev \in EvChoices(s)})
+         \cup (IF s.blocks >= MaxHeight THEN {} ELSE ROChoices(s))
+    [] s.phase = "begun" ->
+         {[a |-> "EndBlock"]}
+         \cup (IF s.ntx < MaxTx THEN TxChoices(s) ELSE {})
+         \cup ROChoices(s)
+         \cup (IF s.next < MaxExt
+          THEN {[a |-> "ExtAward", to |-> x, amt |-> y] : x \in AwardTos, y \in (Amts \ {0})}
+               \cup {[a |-> "ExtBurn", from |-> v, num |-> k] : v \in {u \in Users : s.val[u].ex}, k \in BurnNums}
+          ELSE {})
+    [] s.phase = "ended" -> {[a |-> "Commit"]}
+
 Acts(s) ==
   IF s.halt # "" THEN {}
-  ELSE CASE s.phase = "init" -> {[a |-> "InitChain"]}
-         [] s.phase = "committed" ->
-              (IF MaxExports > s.nexp /\ s.height >= 1 /\ s.blocks < MaxHeight
-                  /\ (\A x \in Accts : s.awardQ[x] = 0) /\ (\A v \in Users : s.burnQ[v] = -1)
-               THEN {[a |-> "ExportImport"]} ELSE {})
-              \cup (IF s.blocks >= MaxHeight THEN {}
-               ELSE {[a |-> "BeginBlock", dt |-> d, prop |-> p, votes |-> vt, evs |-> ev] :
-                      d \in Dts, p \in Props, vt \in VoteChoices(s), ev \in EvChoices(s)})
-              \cup (IF s.blocks >= MaxHeight THEN {} ELSE ROChoices(s))
-         [] s.phase = "begun" ->
-              {[a |-> "EndBlock"]}
-              \cup (IF s.ntx < MaxTx THEN TxChoices(s) ELSE {})
-              \cup ROChoices(s)
-              \cup (IF s.next < MaxExt
-                    THEN {[a |-> "ExtAward", to |-> x, amt |-> y] : x \in AwardTos, y \in (Amts \ {0})}
-                         \cup {[a |-> "ExtBurn", from |-> v, num |-> k] : v \in {u \in Users : s.val[u].ex}, k \in BurnNums}
-                    ELSE {})
-         [] s.phase = "ended" -> {[a |-> "Commit"]}
+  ELSE CrashChoices(s) \cup PhaseActs(s)
 
 Init == st = PreGenesis
 Next == \E a \in Acts(st) : st' = Step(st, a)
